@@ -366,6 +366,16 @@ let register (reg : string -> (string list -> string) -> unit) =
   reg "concat" (function [n; f; s; c] -> concat_case n f s c | _ -> "BADARGS");
   reg "http" (function [t; e; sc] -> http_case t e sc | [t; e] -> http_case t e "" | _ -> "BADARGS");
   reg "xml" (function [k; t] -> xml_case k t | [k] -> xml_case k "" | _ -> "BADARGS");
+  reg "cssdim" (function [kind; k; drops; tok] ->
+      let keep = (k = "1") and b = hexd tok and d = (drops = "1") in
+      let optzero dim = Stdlib.List.exists (fun (u, _) -> u = dim) Tables_gen.css_zero_dimensions in
+      hexe (match kind with
+        | "num" -> CssDim.number_token keep false b
+        | "int" -> CssDim.number_token keep true b
+        | "pct" -> CssDim.percentage_token keep b
+        | "dim" | "dimunk" -> CssDim.dimension_token keep optzero false d b
+        | _ -> CssDim.dimension_token keep optzero true d b)
+    | _ -> "BADARGS");
   reg "csshex" (function [v] -> hexe (CssColor.hex_color_minify Tables_gen.css_shorten_color_hex (hexd v)) | _ -> "BADARGS");
   reg "htmlws" (function [o; t] -> htmlws_case o t | [o] -> htmlws_case o "" | _ -> "BADARGS");
   reg "htmlattrout" (function [o; tag; attrs] ->
